@@ -101,9 +101,8 @@ theorem shape_fourth (x : Inputs)
   simp only []
   rw [runSteps_append]
   simp only [] at h
-  simp [shapeSteps, runSteps, runStep, triggers]
-  intro e1 e2
-  exact absurd ⟨e1, e2⟩ h
+  rw [not_and_or] at h
+  simp [shapeSteps, runSteps, runStep, triggers, h]
 
 example : ¬ ((good 40).spatial = ({ good 50 with shape := [50, 2, 3] } : InputDesc).spatial ∧ (good 40).spatial = (good 60).spatial) := by
   decide
@@ -197,21 +196,17 @@ theorem conversions_masked (x : Inputs) (h : WellFormed x) (a : Arg) (ha : a ∈
 theorem warns_infNan (x : Inputs) (h : WellFormed x) (a : Arg) (ha : a ∈ args3) :
     ({ kind := .infNan, arg := a } ∈ (runChecks steps x).warns ↔ (getArg x a).hasInfNan = true) := by
   rw [accepted x h]
-  obtain ⟨o, hh, f⟩ := x
-  simp [args3] at ha
-  rcases ha with rfl | rfl | rfl <;>
-    simp [okWarns, dtypeWarns, infNanWarns, rangeWarns, maskedWarns, phaseWarns, warnIf, getArg] <;>
-    cases o.hasInfNan <;> cases hh.hasInfNan <;> cases f.hasInfNan <;> simp
+  simp only [okWarns, dtypeWarns, infNanWarns, rangeWarns, maskedWarns, List.mem_append, mem_phaseWarns]
+  simp [args3] at ha ⊢
+  rcases ha with rfl | rfl | rfl <;> simp
 
 /-- values outside the reasonable physical range produce a warning for that argument — and only then -/
 theorem warns_outOfRange (x : Inputs) (h : WellFormed x) (a : Arg) (ha : a ∈ args3) :
     ({ kind := .outOfRange, arg := a } ∈ (runChecks steps x).warns ↔ (getArg x a).outOfRange = true) := by
   rw [accepted x h]
-  obtain ⟨o, hh, f⟩ := x
-  simp [args3] at ha
-  rcases ha with rfl | rfl | rfl <;>
-    simp [okWarns, dtypeWarns, infNanWarns, rangeWarns, maskedWarns, phaseWarns, warnIf, getArg] <;>
-    cases o.outOfRange <;> cases hh.outOfRange <;> cases f.outOfRange <;> simp
+  simp only [okWarns, dtypeWarns, infNanWarns, rangeWarns, maskedWarns, List.mem_append, mem_phaseWarns]
+  simp [args3] at ha ⊢
+  rcases ha with rfl | rfl | rfl <;> simp
 
 /-- clean float arrays pass unchanged and silently -/
 theorem clean_untouched (t1 t2 t3 : Nat) :
